@@ -645,7 +645,7 @@ pub fn run(args: &Args) -> i32 {
     }
     let selectors = ["Siqs", "Mpqs", "Qs", "Ecm", "Auto"];
     let threads = [1usize, 2, 3, 4, 8, 16];
-    let perts_per = if thorough { 100 } else { 4 }; // per (input, selector): total >= 20 per (selector, threads) over inputs
+    let perts_per = if thorough { 25 } else { 4 }; // per (input, selector): total >= 20 per (selector, threads) over inputs
     let gate_kinds = ["rand", "rand", "gapgate", "wgate", "taskgate", "rand"];
 
     let mut stop = false;
